@@ -1174,6 +1174,34 @@ pub fn record_bombs(label: &str, s: &[u8], biff: bool, thorough: bool, mk: &dyn 
                 ]);
             }
         }
+        // nested sub-expressions (PtgMemFunc carries the length of a nested token stream): the depth
+        // of the nesting is the depth of a recursive parser
+        for depth in [63usize, 64, 65, 2048, 21845] {
+            let total = depth * 3;
+            let mut d = body[..fixed].to_vec();
+            if biff {
+                d.extend_from_slice(&(total as u16).to_le_bytes());
+            } else {
+                d.extend_from_slice(&(total as u32).to_le_bytes());
+            }
+            for k in 0..depth {
+                let rest = total - 3 * (k + 1);
+                d.push(0x29);
+                d.extend_from_slice(&(rest as u16).to_le_bytes());
+            }
+            if !biff {
+                d.extend_from_slice(&0u32.to_le_bytes());
+            }
+            if biff && d.len() > 8000 {
+                continue;
+            }
+            let mut rec = header(r.typ, d.len());
+            rec.extend_from_slice(&d);
+            out.push(vec![
+                mk(Edit::Delete { off: r.off, len: r.hdr + r.len }, format!("{}:formula-nesting (removal of the original formula record of {})", pfx, label)),
+                mk(Edit::Insert { off: r.off, bytes: rec }, format!("{}:formula-nesting {} formula at {}: {} nested PtgMemFunc tokens", pfx, label, r.off, depth)),
+            ]);
+        }
         // unaligned 0xFFFF over the token stream
         let rg = r.off + r.hdr + fixed + if biff { 2 } else { 4 };
         let end = (r.off + r.hdr + r.len).min(rg + 40);
